@@ -576,3 +576,22 @@ Definition run_hx2 (g : gr) (nodes : option (list N)) (its : bool) : tok :=
      tbool (h_dom (copy g)); tbool (nodupb (node_ids g))].
 Definition run_its2 (its : gr) (core reindex explicit_h : bool) : tok :=
   L [run_its its core reindex explicit_h; tbool (its_ok (if core then get_rc its else its))].
+
+(** domain of the hydrogen round trip: a networkx graph (unique ids, one entry per pair, end points are nodes)
+    without explicit hydrogens *)
+Definition gwfb (g : gr) : bool :=
+  nodupb (node_ids g) && uniq_pairs (gedges g)
+  && forallb (fun e : N * N * eatt => let '(a, b, _) := e in has_node g a && has_node g b) (gedges g).
+Definition no_H (g : gr) : bool := forallb (fun p : N * natt => negb (el_is_H (snd p))) (gnodes g).
+(** what h_to_explicit followed by h_to_implicit leaves at a node: everything as it was, except that the hcount
+    stored in the reactant half of typesGH (if the node has one) was lowered by h_to_explicit and is not raised again *)
+Definition h_restore (a : natt) : natt :=
+  let c := dflt (a_hc a) 0 in
+  if 0 <? c then NA (a_el a) (a_ar a) (a_hc a) (a_ch a) (a_am a)
+                    (match a_tgh a with Some t => Some (sub_tgh c t) | None => None end)
+  else a.
+(** what h_to_explicit leaves at a node that was there before: hcount (and the reactant-half hcount of typesGH)
+    lowered by the number of hydrogens made explicit; element, aromaticity, charge, atom_map untouched *)
+Definition h_lowered (a : natt) : natt := let c := dflt (a_hc a) 0 in if 0 <? c then dec_h c a else a.
+Definition no_tgh (g : gr) : bool :=
+  forallb (fun p : N * natt => match a_tgh (snd p) with None => true | Some _ => false end) (gnodes g).
